@@ -103,6 +103,17 @@ def register_scalar(reg):
            ensures=[('a_raising_validator_fails_the_measurement', 'self.outcome is %s.FAIL and not self.marginal' % OUT)])
   c.modifies('self.outcome', 'self.marginal')
 
+  # C10: with a serialization cache present (always the case inside a running phase) the cached outcome follows the
+  # in-memory outcome on every exit, including the one where a validator raises
+  c = reg.contract(M, 'Measurement.validate', props=['C10'], name='Measurement.validate[cached]', callsite=False)
+  c.returns('ref:Measurement')
+  c.requires('scalar_measurement_with_a_value', '%s and %s' % (scalar, is_set))
+  c.requires('serialization_cache_present', 'self._cached is not None and len(self._cached) > 0')
+  in_step = "'outcome' in self._cached and self._cached['outcome'] == self.outcome.name"
+  c.ensures('cached_outcome_equals_the_in_memory_outcome', in_step)
+  c.raises('Exception', ensures=[('cached_outcome_equals_the_in_memory_outcome', in_step)])
+  c.modifies('self.outcome', 'self.marginal', 'dict(self._cached)')
+
   c = reg.contract(M, 'Measurement.validate', props=['C06'])
   c.returns('ref:Measurement')
   is_scalar0 = 'old(%s and %s and self._cached is None)' % (scalar, is_set)
